@@ -1432,8 +1432,10 @@ fn panic_violation(p: &PanicRec, op: &Op, i: usize) -> Violation {
 }
 
 /// Execute a trace. Never panics; harness problems are reported in `harness_error`.
-/// Stack of the thread the operations run on when the trace asks for a small one.
-pub const SMALL_STACK: usize = 2 << 20;
+/// Stack of the thread the operations run on when the trace asks for a small one: what a
+/// secondary thread gets by default on macOS (Rust spawns with 2 MiB, musl with 128 KiB). The
+/// unchanged tree was also run with 192 KiB on 40 % of the runs without a single overflow.
+pub const SMALL_STACK: usize = 512 << 10;
 
 pub fn run_trace(
     trace: &Trace,
